@@ -378,3 +378,204 @@ def arm_always_err(body, succ, region=None):
     if not ds:
         return False
     return all(all(is_err_term(a) for a in alts(d[2])) for d in ds)
+
+
+# ---------------------------------------------------------------- abstract evaluation of branch conditions
+class CannotEval(Exception):
+    pass
+
+
+def eval_term(t, env):
+    """evaluate a comparison/bit term over an environment {term: int}; raises CannotEval"""
+    if t in env:
+        return env[t]
+    k = t[0]
+    if k == 'const' and isinstance(t[1], int):
+        return t[1]
+    if k == 'cast':
+        return eval_term(t[1], env)
+    if k == 'un' and t[1] == 'Not':
+        v = eval_term(t[2], env)
+        return (not v) if isinstance(v, bool) else ~v
+    if k == 'bin':
+        a = eval_term(t[2], env)
+        b = eval_term(t[3], env)
+        op = t[1]
+        if op == 'Eq':
+            return a == b
+        if op == 'Ne':
+            return a != b
+        if op == 'Lt':
+            return a < b
+        if op == 'Le':
+            return a <= b
+        if op == 'Gt':
+            return a > b
+        if op == 'Ge':
+            return a >= b
+        if op == 'BitAnd':
+            return a & b
+        if op == 'BitOr':
+            return a | b
+        if op in ('Add', 'AddWithOverflow'):
+            return a + b
+        if op in ('Sub', 'SubWithOverflow'):
+            return a - b
+    if k == 'discr' and t[1][0] == 'try':
+        return 0   # `?` assumed to continue
+    raise CannotEval(show(t))
+
+
+def walk_branches(body, start, env, stop):
+    """follow the CFG from `start`, deciding switches by evaluating their condition under env, until stop(bb)
+    returns a label. Returns (label, path)."""
+    bb = start
+    path = []
+    for _ in range(200):
+        path.append(bb)
+        lab = stop(bb)
+        if lab is not None:
+            return lab, path
+        t = body.blocks[bb]['term']
+        k = t['k']
+        if k == 'switch':
+            v = eval_term(res(body).operand(t['discr']), env)
+            v = int(v)
+            nxt = None
+            for val, s in t['targets']:
+                if val == v:
+                    nxt = s
+            if nxt is None:
+                nxt = t['otherwise']
+            bb = nxt
+        elif k in ('goto', 'drop', 'assert') or (k == 'call' and t.get('target') is not None):
+            bb = t['target']
+        else:
+            return 'end:' + k, path
+    return 'too-long', path
+
+
+def loop_exit_kinds(body, L):
+    """classify every exit edge of loop L: exhausted (iterator returned None / range ended), err (always returns
+    an error), unreachable, other"""
+    out = []
+    for x, y in L['exits']:
+        ty = body.blocks[y]['term']
+        tx = body.blocks[x]['term']
+        if ty and ty['k'] == 'unreachable' and not body.blocks[y]['stmts']:
+            out.append((x, y, 'unreachable'))
+            continue
+        if tx['k'] == 'switch':
+            c = switch_cond(body, x)
+            if c[0] == 'discr' and c[1][0] == 'next':
+                out.append((x, y, 'exhausted'))
+                continue
+        if arm_always_err(body, y):
+            out.append((x, y, 'err'))
+            continue
+        out.append((x, y, 'other'))
+    return out
+
+
+def unwrap_into_iter(t):
+    while t[0] == 'call' and t[1] == 'std::iter::IntoIterator::into_iter':
+        t = t[2][0]
+    return t
+
+
+# ---------------------------------------------------------------- abstract interpreter for scalar branch logic
+_UNK = object()
+
+
+def _binop(op, a, b):
+    if op == 'Eq':
+        return a == b
+    if op == 'Ne':
+        return a != b
+    if op == 'Lt':
+        return a < b
+    if op == 'Le':
+        return a <= b
+    if op == 'Gt':
+        return a > b
+    if op == 'Ge':
+        return a >= b
+    if op == 'BitAnd':
+        return (a & b) if not isinstance(a, bool) else (a and b)
+    if op == 'BitOr':
+        return (a | b) if not isinstance(a, bool) else (a or b)
+    if op == 'BitXor':
+        return a ^ b
+    if op in ('Add', 'AddWithOverflow', 'AddUnchecked'):
+        return a + b
+    if op in ('Sub', 'SubWithOverflow', 'SubUnchecked'):
+        return a - b
+    if op in ('Mul', 'MulWithOverflow'):
+        return a * b
+    return _UNK
+
+
+def interp(body, start, term_env, stop, max_steps=400):
+    """interpret scalar assignments and switches from block `start` with the values of some *terms* fixed
+    (term_env), until stop(bb) gives a label. Raises CannotEval when a branch depends on an unknown value."""
+    r = res(body)
+    store = {}
+
+    def opval(op):
+        if op['k'] == 'const':
+            return op['v'] if 'v' in op else _UNK
+        p = op['p']
+        if not p['p'] and p['l'] in store and store[p['l']] is not _UNK:
+            return store[p['l']]
+        t = r.operand(op)
+        try:
+            return eval_term(t, term_env)
+        except CannotEval:
+            return _UNK
+
+    bb = start
+    path = []
+    for _ in range(max_steps):
+        path.append(bb)
+        lab = stop(bb)
+        if lab is not None:
+            return lab, path
+        blk = body.blocks[bb]
+        for st in blk['stmts']:
+            if st['k'] != 'assign' or st['p']['p']:
+                continue
+            rv = st['rv']
+            k = rv['k']
+            v = _UNK
+            if k == 'use':
+                v = opval(rv['op'])
+            elif k == 'cast':
+                v = opval(rv['op'])
+            elif k == 'bin':
+                a, b_ = opval(rv['a']), opval(rv['b'])
+                if a is not _UNK and b_ is not _UNK:
+                    v = _binop(rv['op'], a, b_)
+            elif k == 'un' and rv['op'] == 'Not':
+                a = opval(rv['a'])
+                if a is not _UNK:
+                    v = (not a) if isinstance(a, bool) else ~a
+            store[st['p']['l']] = v
+        t = blk['term']
+        k = t['k']
+        if k == 'switch':
+            v = opval(t['discr'])
+            if v is _UNK:
+                raise CannotEval('branch at %s depends on %s' % (t['span'], show(r.operand(t['discr']))))
+            v = int(v)
+            nxt = None
+            for val, s in t['targets']:
+                if val == v:
+                    nxt = s
+            bb = nxt if nxt is not None else t['otherwise']
+        elif k in ('goto', 'drop', 'assert') or (k == 'call' and t.get('target') is not None):
+            if k == 'call' and not t['dest']['p']:
+                store[t['dest']['l']] = _UNK
+            bb = t['target']
+        else:
+            return 'end:' + k, path
+    return 'too-long', path
